@@ -34,6 +34,12 @@ with argparse on two necessary points: integral numeric tokens become int
 (decided on the numeric value — a lexical test such as isdigit misses negative
 integers), and a dash-prefixed token is an option only if it is not a number,
 at every classification site.
+C18.11 (wave 7): evo_ape's and evo_rpe's run() consult the same package
+settings (siblings): a setting only one of them reads is ignored by the other,
+whatever the settings file or a -c config says. Where helpers have another
+interface than on the pinned tree, C18.2 / C18.7 evaluate what `set` /
+`generate` store for sample tokens (_token_probe), C18.4 / C18.6 judge the
+written / merged dict by its sources in priority order (lib.dict_priority).
 """
 UNDECIDED = [
     "equivalence of a generated config with the direct command line for all "
